@@ -2,6 +2,8 @@ package pushback
 
 import (
 	"errors"
+
+	"github.com/goblimey/go-ntrip/verifhook"
 )
 
 type byteChan chan byte
@@ -32,6 +34,7 @@ func (bc *ByteChannel) get() (byte, error) {
 	if bc.byteChan == nil {
 		return 0, errors.New("channel is nil")
 	}
+	verifhook.At("framer.recv")
 	b, more := <-bc.byteChan
 	if !more {
 		return 0, errors.New("done")
